@@ -24,6 +24,16 @@ def find_entry(facts):
         if len(tys) == 3 and any(t.startswith('http::request::Request<') for t in tys) and any(t.endswith('::ServerState') for t in tys) \
                 and any('SocketAddr' in t for t in tys) and 'Infallible' in b.local_ty(0):
             out.append((b, ups))
+    if not out:
+        # the same entry as a plain function that takes (request, state, peer address) and RETURNS the future (an async block built
+        # after the request was taken apart): interpreted by calling the function and polling what it returns
+        for b in facts.bodies.values():
+            if b.crate != 'datacake_rpc' or b.kind != 'fn' or b.d['promoted'] or b.argc != 3:
+                continue
+            tys = [b.local_ty(i) for i in (1, 2, 3)]
+            if any(t.startswith('http::request::Request<') for t in tys) and any(t.endswith('::ServerState') for t in tys) and any('SocketAddr' in t for t in tys) \
+                    and 'Infallible' in b.local_ty(0):
+                out.append((b, {i - 1: t for i, t in zip((1, 2, 3), tys)}))
     return out
 
 
@@ -146,8 +156,15 @@ def check_dispatch(ctx, facts, rule, cfg_label=''):
                     it.unknown_call = actor_abs.lenient_unknown
                     it.choices = list(choices)
                     n = max(upv) + 1
-                    st = ('closure', entry.defp, [Cell(upv.get(i, ('opaque', 'u'))) for i in range(n)])
-                    r = it.run_body(entry, [st, ('opaque', 'cx')])
+                    if entry.kind == 'fn':
+                        fut = it.deref_all(it.run_body(entry, [upv.get(i, ('opaque', 'u')) for i in range(n)]))
+                        if fut is None or fut[0] != 'closure':
+                            raise Unmodelled('the connection entry does not return its future')
+                        pr = it.deref_all(it.poll_coroutine(('ref', Cell(fut)), 0))
+                        r = pr[3][0].v if pr and pr[0] == 'adt' and pr[3] else None
+                    else:
+                        st = ('closure', entry.defp, [Cell(upv.get(i, ('opaque', 'u'))) for i in range(n)])
+                        r = it.run_body(entry, [st, ('opaque', 'cx')])
                     return it.oracle_log, (list(world.trace), r)
                 out[(registered, answer)] = absint.explore(run)
     except (Unmodelled, absint.NeedChoice, IndexError, TypeError, KeyError, AttributeError) as e:
